@@ -52,13 +52,20 @@ CLAIM = dict(
          '(ast translator, rules listed in the evidence) and validated numerically on every run by the dynamic harness '
          '(bitwise comparison under >= 4 global generator states x call histories, generator-object mode, default '
          'dictionaries, pollution of the default dictionaries, re-import under different global states, fresh / first / second / '
-         'after-other-inputs call histories, degenerate shapes, allocator poisoning for np.empty storage) -- that part is '
+         'after-other-inputs / after-raising-calls / after-importlib.reload call histories, degenerate shapes and power-of-two '
+         'rescalings, allocator poisoning for np.empty storage, seed forms (int 0 / 1 / large, bool, NumPy integers, 0-d array, '
+         'Generator, Generator subclass, one object reused vs two equal-state objects, positional seed + explicit defaults), '
+         'argument forms (tuple / int32 / int64 arrays, NumPy scalars, F-ordered / non-contiguous cores, flags as 1 / np.bool_), '
+         'three calls on the same argument objects) -- that part is '
          'validation, not proof. For np.empty the translator only checks that a store is executed on every path; that the '
          'stores cover every element is validated by the allocator-poisoning stream only. Trusted: NumPy '
          'contract default_rng(int) deterministic / a Generator draws from its own state only; user callbacks do not draw '
          'from global generators nor store new keys in info. Not modelled: iteration order of dictionaries, implicit '
          'exceptions outside try blocks, info["t"] (timing, excluded from "result"), out-of-fuel runs (excluded explicitly: '
-         'the theorems speak about runs that return).',
+         'the theorems speak about runs that return). Observation (not a C10 violation, decided by the lead): NumPy-integer seeds '
+         '(np.int64(5)) are not recognised by utils._rand and make every seeded function raise AttributeError, loudly and '
+         'identically on every call; the dynamic rule is: a non-canonical seed / argument form gives the canonical answer or '
+         'raises, never another answer silently.',
     technique='Coq soundness proof (two-run simulation, induction on fuel and command) of an effect checker + per-run closed '
               'boolean obligation over a regenerated skeleton + dynamic bitwise determinism harness')
 TRUSTED = ['Coq 8.16.1 kernel + vm_compute (closed obligation api_deterministic)',
